@@ -5,7 +5,7 @@
    This file contains only statements, each closed by `exact <lemma>`, Print Assumptions, and Examples
    (concrete reachable states, by vm_compute) showing that the interesting protocol states do occur. *)
 From Coq Require Import NArith List Bool Permutation.
-From MiV Require Import Model.TFree Proofs.TFreeBase Proofs.TFreeInv Proofs.TFreeStep5 Proofs.TFreeProofs Proofs.TFreeCheck.
+From MiV Require Import Model.TFree Proofs.TFreeBase Proofs.TFreeInv Proofs.TFreeStep5 Proofs.TFreeProofs Proofs.TFreeCheck Proofs.TFreeComplete.
 Import ListNotations.
 Local Open Scope N_scope.
 
@@ -64,6 +64,12 @@ Print Assumptions C02_no_double_handout.
 Theorem tfree_inv_b_sound : forall c, inv_b c = true -> Inv c /\ InvT c.
 Proof. exact inv_b_sound. Qed.
 Print Assumptions tfree_inv_b_sound.
+
+(* ... and complete: every configuration that satisfies the invariant passes it, so the checker accepts every reachable
+   state (it cannot raise a false alarm on a state of the protocol) and rejects exactly the states outside the invariant *)
+Theorem tfree_inv_b_complete : forall c, Inv c -> InvT c -> inv_b c = true.
+Proof. exact inv_b_complete. Qed.
+Print Assumptions tfree_inv_b_complete.
 
 (* ---- the theorems are not vacuous: concrete schedules reach the interesting states ---- *)
 Definition b00 : bid := (0, 0).
